@@ -349,15 +349,23 @@ package tchannel
 //@   ensures rs != nil && rs.Attempt > -9223372036854775808 ==> n == rs.Attempt - 1
 //@   property C17
 
-// getHost: the prefix before the first ':' (the whole string if there is none).
+// getHost: the host part of a host:port -- what precedes the ':' that separates
+// the port, i.e. the LAST ':' (a port contains none; an IPv6 host, written
+// "[::1]:4040", contains several); the whole string if there is no ':'.
+// (The first version of this contract restated the code -- "before the first
+// ':'" -- and so encoded a defect: all bracketed IPv6 hosts collapsed to "[".)
 //@ func getHost(hostPort string) (host string)
 //@   pure
 //@   ensures len(host) <= len(hostPort)
 //@   ensures host == hostPort[:len(host)]
+//@   label separator-is-a-colon
 //@   ensures len(host) < len(hostPort) ==> hostPort[len(host)] == ':'
-//@   ensures forall j int :: 0 <= j && j < len(host) ==> hostPort[j] != ':'
-//@   loop 0 invariant forall j int :: 0 <= j && j < i ==> hostPort[j] != ':'
-//@   loop 0 invariant 0 <= i && i <= len(hostPort)
+//@   label port-part-has-no-colon
+//@   ensures forall j int :: len(host) < j && j < len(hostPort) ==> hostPort[j] != ':'
+//@   label no-colon-no-port
+//@   ensures (forall j int :: 0 <= j && j < len(hostPort) ==> hostPort[j] != ':') ==> host == hostPort
+//@   loop 0 invariant -1 <= i && i < len(hostPort)
+//@   loop 0 invariant forall j int :: i < j && j < len(hostPort) ==> hostPort[j] != ':'
 //@   property C15 C17
 
 // Ghost accounting for the user callback: ncalls counts invocations, lasterr
